@@ -75,6 +75,61 @@ def run_shard(desc):
                 t = ["stmt", [["bin", "=", ["ref", "x"], gen.num_lit(*pa)], ["bin", "/=", ["ref", "x"], gen.num_lit(mb, sb)], ["ref", "x"]]]
             progs.append({"tree": t, "text": ref.Renderer().render(t)})
             labels.append(None)
+    elif kind == "member":
+        # membership / equality over lists of every length 0..40 (and a few long ones): the needle equals exactly one element, written at
+        # another scale (1 vs 1.0 vs 1.000), possibly inside a nested list or map, at the first / a middle / the last position, or is absent
+        def twin(v):
+            if v[0] == "num":
+                k = rnd.choice([1, 1, 2, 3, 10])
+                return ["num", str(int(v[1]) * 10 ** k), v[2] + k] if v[2] + k <= 28 and abs(int(v[1])) * 10 ** k < 2 ** 96 else v
+            if v[0] == "un":
+                return ["un", v[1], twin(v[2])]
+            if v[0] == "list":
+                return ["list", [twin(x) for x in v[1]]]
+            if v[0] == "map":
+                return ["map", [[kk, twin(x)] for kk, x in v[1]]]
+            return v
+
+        def value(depth=0):
+            k = gen.wchoice(rnd, [("num", 6), ("str", 2), ("bool", 1), ("list", 1.5 if depth < 2 else 0), ("map", 1 if depth < 2 else 0)])
+            if k == "num":
+                return gen.num_lit(rnd.randint(-30, 3000), rnd.choice([0, 0, 1, 2]))
+            if k == "str":
+                return ["str", rnd.choice(["a", "b", "1", "1.0", "", "k%d" % rnd.randint(0, 50)])]
+            if k == "bool":
+                return ["bool", rnd.random() < 0.5]
+            if k == "list":
+                return ["list", [value(depth + 1) for _ in range(rnd.randint(0, 3))]]
+            return ["map", [[["str", "k%d" % i], value(depth + 1)] for i in range(rnd.randint(1, 2))]]
+
+        while len(progs) < n:
+            m = rnd.choice(list(range(0, 41)) + [64, 65, 100, 257])
+            elems = []
+            seen = set()
+            while len(elems) < m:
+                v = value()
+                key = json.dumps(v)
+                if key in seen:
+                    continue
+                seen.add(key)
+                elems.append(v)
+            mode = rnd.choice(["twin", "twin", "same", "absent"])
+            if m == 0 or mode == "absent":
+                needle = gen.num_lit(rnd.randint(5000, 6000), rnd.choice([0, 1]))
+            else:
+                pos = rnd.choice([0, m - 1, rnd.randrange(m)])
+                needle = twin(elems[pos]) if mode == "twin" else elems[pos]
+            lst = ["list", elems]
+            t = rnd.choice([
+                ["bin", "in", needle, lst],
+                ["un", "not", ["bin", "in", needle, lst]],
+                ["stmt", [["bin", "=", ["ref", "xs"], lst], ["bin", "in", needle, ["ref", "xs"]]]],
+                ["bin", "==", lst, twin(lst)],
+                ["bin", "!=", ["list", [lst, needle]], ["list", [twin(lst), twin(needle)]]],
+                ["bin", "in", ["list", [needle]], ["list", [["list", [e]] for e in elems]]],
+            ])
+            progs.append({"tree": t, "text": ref.Renderer().render(t)})
+            labels.append(None)
     elif kind == "long":
         n_ = lambda v: ["num", str(v), 0]
         for _ in range(n):
@@ -165,6 +220,7 @@ def run(rep, tier):
     for i in range(16):
         shards.append(("long", i, 0, 40 if tier == "quick" else 1000, "release" if i % 2 else "verifdbg"))
         shards.append(("divexact", i, 0, 500 if tier == "quick" else 20000, "release" if i % 2 else "verifdbg"))
+        shards.append(("member", i, 0, 400 if tier == "quick" else 16000, "release" if i % 2 else "verifdbg"))
     for part in common.pmap(run_shard, shards):
         rep.merge(part)
     rep.extra["exhaustive"] = True
